@@ -225,9 +225,19 @@ def run_conversation(rec, case):
                 deliver('2' + pdata)
                 steps.append('ping')
             elif k < 0.85:
-                deliver(rng.choice(['6', '6', '5', '0{"sid":"zzz"}', '7',
-                                    '8x', '9']))
-                steps.append('odd')
+                odd = rng.choice(['6', '6', '5', '0{"sid":"zzz"}', '7',
+                                  '8x', '9', None])
+                if odd is None and not on_ws:
+                    # a poll answered 200 with nothing in it (what a server
+                    # sends when it has nothing to say and no NOOP to spare):
+                    # it carries no packet, so nothing may happen twice
+                    w.quiesce()
+                    srv.push()
+                    rec.count('empty_poll_answers')
+                    steps.append('empty')
+                else:
+                    deliver(odd or '6')
+                    steps.append('odd')
             else:
                 # the scripted server emits no periodic PING by itself
                 # (a real server PINGs every ping_interval; both client loops
